@@ -40,11 +40,11 @@ def severityTable : List (String × Nat × Nat) := [
   ("DirectiveLocationAdded", 0, 0),
   ("DirectiveArgumentRemoved", 2, 2),
   ("DirectiveArgumentAdded", 0, 2),
-  ("DirectiveArgumentDefaultValueChange", 1, 1),
+  ("DirectiveArgumentDefaultValueChange", 1, 2),
   ("DirectiveArgumentChangedType", 2, 2),
   ("FieldArgumentRemoved", 2, 2),
   ("FieldArgumentAdded", 0, 2),
-  ("FieldArgumentDefaultValueChange", 1, 1),
+  ("FieldArgumentDefaultValueChange", 1, 2),
   ("FieldArgumentChangedType", 2, 2),
   ("FieldChangedType", 2, 2),
   ("FieldRemoved", 2, 2),
@@ -54,7 +54,7 @@ def severityTable : List (String × Nat × Nat) := [
   ("FieldDeprecationReasonChanged", 0, 0),
   ("InputFieldRemoved", 2, 2),
   ("InputFieldAdded", 0, 2),
-  ("InputFieldDefaultValueChange", 1, 1),
+  ("InputFieldDefaultValueChange", 1, 2),
   ("InputFieldChangedType", 2, 2)
 ]
 end PyGql.Generated.Differ
